@@ -1,20 +1,22 @@
 import Bch.Generated.Facts
+import Bch.Tie.StateLib
 /-
 State-footprint tie (HD).
 The model of this source group carries exactly the state listed here from one call to the next. The lists are
 re-extracted from /repo's current source by `harness facts` (go/ast): the field types of every exported struct type of
 the group and of the package structs reachable from its fields (names dropped; each field reduced to its
 shape - named / pointer / slice / array / map - so that a change of representation of the same piece of state
-does not count, a new field does; unexported per-call helper records are not state) and the types of the package-level variables some function may modify.
+does not count, a new field does; unexported per-call helper records are not state). The comparison is
+one-directional (`StateLib.covered`): the code may have less state than the model accounts for, never more. and the types of the package-level variables some function may modify.
 New state (a cache field, a pooled buffer, a memo variable) is state the model does not have: the theorems of the
 properties resting on this model then no longer speak for the code until the model is extended.
 -/
 namespace Bch.Tie.StateHD
 
 /-- hdkeychain: ExtendedKey = five byte slices + depth, child number, private flag, as Model.HDHeap -/
-theorem tie_state_structs : Generated.stateHDStructs =
-    [["named", "named", "named", "slice", "slice", "slice", "slice", "slice"]] := by decide +kernel
+theorem tie_state_structs : StateLib.covered Generated.stateHDStructs
+    [["named", "named", "named", "slice", "slice", "slice", "slice", "slice"]] = true := by decide +kernel
 
-theorem tie_state_globals : Generated.stateHDGlobals = [] := by decide +kernel
+theorem tie_state_globals : StateLib.covered [Generated.stateHDGlobals] [[]] = true := by decide +kernel
 
 end Bch.Tie.StateHD
